@@ -240,6 +240,10 @@ def _exec_directed(case):
         ein = [(tuple(s), tuple(t)) for s, t in h_in.get_edges()]
         eout = [(tuple(s), tuple(t)) for s, t in h_out.get_edges()]
         ctx = {"variant": v, "input": short(ein, 400), "output": short(eout, 400)}
+        for s_, t_ in eout:
+            if len(set(s_)) != len(s_) or len(set(t_)) != len(t_):
+                # a node listed twice on one side hides a lost incidence from every count by position
+                raise Violation("C13/directed/repeated-node-in-hyperedge", {"edge": short([s_, t_]), **ctx})
         if sorted(map(repr, ein)) != sorted(repr((tuple(sorted(s, key=tag)), tuple(sorted(t, key=tag)))) for s, t in
                                             [(tuple(a), tuple(b)) for a, b in case["spec"]["edges"]]):
             pass  # input canonical forms differ only by ordering; not a verdict
